@@ -38,7 +38,7 @@ package cache
 //@   ensures cacheInv(c) && others(c, key) && now >= old(now)
 //@   ensures isEmptyString(val) ==> result != nil && sameMap(c)
 //@   ensures !isEmptyString(val) ==> result == nil && key in c.items && fresh(c.items[key]) && c.items[key].object == val
-//@   ensures !isEmptyString(val) && (d > 0 || (d == 0 && c.expTime > 0)) ==> old(now) + (d == 0 ? c.expTime : d) <= c.items[key].expiration && c.items[key].expiration <= now + (d == 0 ? c.expTime : d)
+//@   ensures !isEmptyString(val) && (d > 0 || (d == 0 && c.expTime > 0)) ==> now0 + (d == 0 ? c.expTime : d) <= c.items[key].expiration && c.items[key].expiration <= now + (d == 0 ? c.expTime : d)
 //@   ensures !isEmptyString(val) && !(d > 0 || (d == 0 && c.expTime > 0)) ==> c.items[key].expiration <= 0
 
 //@ func (*cache.Cache).Set
@@ -51,7 +51,7 @@ package cache
 //@   ensures (!old(key in c.items) || (old(c.items[key].expiration) > 0 && old(now) > old(c.items[key].expiration))) && isEmptyString(val) ==> result != nil && sameMap(c)
 //@   ensures (!old(key in c.items) || (old(c.items[key].expiration) > 0 && old(now) > old(c.items[key].expiration))) && !isEmptyString(val) ==> result == nil && key in c.items && c.items[key].object == val
 //@   ensures result == nil ==> key in c.items && c.items[key].object == val && fresh(c.items[key])
-//@   ensures result == nil && (d > 0 || (d == 0 && c.expTime > 0)) ==> old(now) + (d == 0 ? c.expTime : d) <= c.items[key].expiration && c.items[key].expiration <= now + (d == 0 ? c.expTime : d)
+//@   ensures result == nil && (d > 0 || (d == 0 && c.expTime > 0)) ==> now0 + (d == 0 ? c.expTime : d) <= c.items[key].expiration && c.items[key].expiration <= now + (d == 0 ? c.expTime : d)
 //@   ensures result == nil && !(d > 0 || (d == 0 && c.expTime > 0)) ==> c.items[key].expiration <= 0
 //@   ensures result != nil ==> sameMap(c)
 
@@ -63,7 +63,7 @@ package cache
 //@   ensures cacheInv(c) && others(c, key)
 //@   ensures result != nil ==> sameMap(c)
 //@   ensures !old(key in c.items) && !isEmptyString(val) ==> result == nil
-//@   ensures result == nil ==> key in c.items && c.items[key].object == val && (c.expTime > 0 ==> old(now) + c.expTime <= c.items[key].expiration && c.items[key].expiration <= now + c.expTime) && (c.expTime <= 0 ==> c.items[key].expiration <= 0)
+//@   ensures result == nil ==> key in c.items && c.items[key].object == val && (c.expTime > 0 ==> now0 + c.expTime <= c.items[key].expiration && c.items[key].expiration <= now + c.expTime) && (c.expTime <= 0 ==> c.items[key].expiration <= 0)
 
 //@ func (*cache.Cache).Update
 //@   property C08 C01 C02
@@ -73,7 +73,7 @@ package cache
 //@   ensures cacheInv(c) && others(c, key) && now >= old(now)
 //@   ensures isEmptyString(val) ==> result != nil && sameMap(c)
 //@   ensures !isEmptyString(val) ==> result == nil && key in c.items && c.items[key].object == val
-//@   ensures !isEmptyString(val) && (d > 0 || (d == 0 && c.expTime > 0)) ==> old(now) + (d == 0 ? c.expTime : d) <= c.items[key].expiration && c.items[key].expiration <= now + (d == 0 ? c.expTime : d)
+//@   ensures !isEmptyString(val) && (d > 0 || (d == 0 && c.expTime > 0)) ==> now0 + (d == 0 ? c.expTime : d) <= c.items[key].expiration && c.items[key].expiration <= now + (d == 0 ? c.expTime : d)
 //@   ensures !isEmptyString(val) && !(d > 0 || (d == 0 && c.expTime > 0)) ==> c.items[key].expiration <= 0
 
 //@ func (*cache.cache).delete
@@ -182,3 +182,188 @@ package cache
 
 //@ guards cache.cache.mu : items, map(items)
 //@ lockinv cache.cache : icacheInv(self)
+
+// ---------------------------------------------------------------- C07: LRU cache
+//
+// Ghost view of the circular eviction list: seq[0..len) are its nodes from the front (most recently touched)
+// to the back, idx is the inverse. Every list/cache function takes the current ghost view (seq, idx) and
+// yields the new one (nseq, nidx).
+
+//@ pred listInv(l *lruList, seq map[int]*node, idx map[*node]int) := l != nil && l.len >= 0 && l.root.next == (l.len == 0 ? &l.root : seq[0]) && l.root.prev == (l.len == 0 ? &l.root : seq[l.len - 1]) && (forall i int :: { seq[i] } 0 <= i && i < l.len ==> seq[i] != &l.root && seq[i] != nil && allocated(seq[i]) && idx[seq[i]] == i && seq[i].next == (i + 1 < l.len ? seq[i + 1] : &l.root) && seq[i].prev == (i > 0 ? seq[i - 1] : &l.root))
+//@ pred member(l *lruList, seq map[int]*node, idx map[*node]int, nd *node) := 0 <= idx[nd] && idx[nd] < l.len && seq[idx[nd]] == nd
+//@ pred movedFront(n int, seq map[int]*node, nseq map[int]*node, j int) := nseq[0] == seq[j] && (forall i int :: { nseq[i] } 1 <= i && i <= j ==> nseq[i] == seq[i - 1]) && (forall i int :: { nseq[i] } j < i && i < n ==> nseq[i] == seq[i])
+//@ pred removedAt(n int, seq map[int]*node, nseq map[int]*node, j int) := (forall i int :: { nseq[i] } 0 <= i && i < j ==> nseq[i] == seq[i]) && (forall i int :: { nseq[i] } j <= i && i < n - 1 ==> nseq[i] == seq[i + 1])
+//@ pred pushedFront(n int, seq map[int]*node, nseq map[int]*node, x *node) := nseq[0] == x && (forall i int :: { nseq[i] } 1 <= i && i <= n ==> nseq[i] == seq[i - 1])
+
+//@ func cache.newLRUList
+//@   property C07
+//@   ghost nseq map[int]*node
+//@   ghost nidx map[*node]int
+//@   ensures result != nil && fresh(result) && result.len == 0 && listInv(result, nseq, nidx)
+
+//@ func (*cache.lruList).moveFront
+//@   property C07
+//@   ghost-param seq map[int]*node
+//@   ghost-param idx map[*node]int
+//@   ghost nseq map[int]*node
+//@   ghost nidx map[*node]int
+//@   requires listInv(l, seq, idx) && member(l, seq, idx, nd)
+//@   modifies all cache.node.next, all cache.node.prev
+//@   exit-ghost nseq = lambda i int :: (i == 0 ? nd : (i <= idx[nd] ? seq[i - 1] : seq[i]))
+//@   exit-ghost nidx = lambda r *node :: (r == nd ? 0 : (idx[r] < idx[nd] ? idx[r] + 1 : idx[r]))
+//@   ensures listInv(l, nseq, nidx) && l.len == old(l.len) && movedFront(l.len, seq, nseq, idx[nd])
+//@   ensures forall r *node :: { nidx[r] } member(l, seq, idx, r) ==> member(l, nseq, nidx, r)
+//@   ensures forall r *node :: { r.next } !(0 <= idx[r] && idx[r] < l.len && seq[idx[r]] == r) && r != &l.root ==> r.next == old(r.next) && r.prev == old(r.prev)
+
+//@ func (*cache.lruList).addFront
+//@   property C07
+//@   ghost-param seq map[int]*node
+//@   ghost-param idx map[*node]int
+//@   ghost nseq map[int]*node
+//@   ghost nidx map[*node]int
+//@   requires listInv(l, seq, idx)
+//@   modifies l.len, all cache.node.next, all cache.node.prev
+//@   exit-ghost nseq = lambda i int :: (i == 0 ? result : seq[i - 1])
+//@   exit-ghost nidx = lambda r *node :: (r == result ? 0 : idx[r] + 1)
+//@   ensures result != nil && fresh(result) && result.key == key && result.value == value && result.list == l
+//@   ensures listInv(l, nseq, nidx) && l.len == old(l.len) + 1 && pushedFront(old(l.len), seq, nseq, result)
+//@   ensures member(l, nseq, nidx, result) && forall r *node :: { nidx[r] } 0 <= idx[r] && idx[r] < old(l.len) && seq[idx[r]] == r ==> member(l, nseq, nidx, r)
+//@   ensures forall r *node :: { r.next } !(0 <= idx[r] && idx[r] < old(l.len) && seq[idx[r]] == r) && r != &l.root && r != result ==> r.next == old(r.next) && r.prev == old(r.prev)
+
+//@ func (*cache.lruList).remove
+//@   property C07
+//@   ghost-param seq map[int]*node
+//@   ghost-param idx map[*node]int
+//@   ghost nseq map[int]*node
+//@   ghost nidx map[*node]int
+//@   requires listInv(l, seq, idx) && (node == &l.root || member(l, seq, idx, node))
+//@   modifies l.len, all cache.node.next, all cache.node.prev
+//@   exit-ghost nseq = lambda i int :: (node == &l.root ? seq[i] : (i < idx[node] ? seq[i] : seq[i + 1]))
+//@   exit-ghost nidx = lambda r *node :: (node == &l.root ? idx[r] : (idx[r] > idx[node] ? idx[r] - 1 : idx[r]))
+//@   ensures result <==> node != &l.root
+//@   ensures listInv(l, nseq, nidx)
+//@   ensures !result ==> l.len == old(l.len) && forall i int :: { nseq[i] } nseq[i] == seq[i]
+//@   ensures result ==> l.len == old(l.len) - 1 && removedAt(old(l.len), seq, nseq, idx[node])
+//@   ensures result ==> forall r *node :: { nidx[r] } 0 <= idx[r] && idx[r] < old(l.len) && seq[idx[r]] == r && r != node ==> member(l, nseq, nidx, r)
+//@   ensures result ==> forall i int :: { nseq[i] } 0 <= i && i < l.len ==> nseq[i] != node
+//@   ensures forall r *node :: { r.next } !(0 <= idx[r] && idx[r] < old(l.len) && seq[idx[r]] == r) && r != &l.root ==> r.next == old(r.next) && r.prev == old(r.prev)
+
+//@ pred lruInv(c *LRUCache, seq map[int]*node, idx map[*node]int) := c.size >= 1 && c.evictList != nil && c.items != nil && listInv(c.evictList, seq, idx) && c.evictList.len <= c.size && (forall k K :: { c.items[k] } k in c.items ==> member(c.evictList, seq, idx, c.items[k]) && c.items[k].key == k) && (forall i int :: { seq[i] } 0 <= i && i < c.evictList.len ==> seq[i].key in c.items && c.items[seq[i].key] == seq[i])
+//@ pred kvSame(n int, nseq map[int]*node) := forall i int :: { nseq[i] } 0 <= i && i < n ==> nseq[i].key == old(nseq[i].key) && nseq[i].value == old(nseq[i].value)
+
+//@ func cache.NewLRU
+//@   property C07
+//@   ghost nseq map[int]*node
+//@   ghost nidx map[*node]int
+//@   ensures size <= 0 ==> result0 == nil && result1 != nil
+//@   ensures size > 0 ==> result1 == nil && result0 != nil && fresh(result0) && lruInv(result0, nseq, nidx) && result0.size == size && result0.evictList.len == 0
+
+//@ func (*cache.LRUCache).Count
+//@   property C07
+//@   requires c.evictList != nil
+//@   ensures result == c.evictList.len
+
+//@ func (*cache.LRUCache).Get
+//@   property C07
+//@   ghost-param seq map[int]*node
+//@   ghost-param idx map[*node]int
+//@   ghost nseq map[int]*node
+//@   ghost nidx map[*node]int
+//@   requires lruInv(c, seq, idx)
+//@   modifies all cache.node.next, all cache.node.prev
+//@   ensures available <==> key in c.items
+//@   ensures available ==> value == c.items[key].value && lruInv(c, nseq, nidx) && movedFront(c.evictList.len, seq, nseq, idx[c.items[key]])
+//@   ensures !available ==> value == zero && lruInv(c, seq, idx)
+//@   call moveFront#1 ghost seq = seq; idx = idx
+
+//@ func (*cache.LRUCache).GetOldest
+//@   property C07
+//@   ghost-param seq map[int]*node
+//@   ghost-param idx map[*node]int
+//@   ghost nseq map[int]*node
+//@   ghost nidx map[*node]int
+//@   requires lruInv(c, seq, idx)
+//@   modifies all cache.node.next, all cache.node.prev
+//@   ensures available <==> c.evictList.len > 0
+//@   ensures available ==> key == seq[c.evictList.len - 1].key && value == seq[c.evictList.len - 1].value && lruInv(c, nseq, nidx) && movedFront(c.evictList.len, seq, nseq, c.evictList.len - 1)
+//@   ensures !available ==> lruInv(c, seq, idx)
+//@   call moveFront#1 ghost seq = seq; idx = idx
+
+//@ func (*cache.LRUCache).GetYoungest
+//@   property C07
+//@   ghost-param seq map[int]*node
+//@   ghost-param idx map[*node]int
+//@   requires lruInv(c, seq, idx)
+//@   ensures available <==> c.evictList.len > 0
+//@   ensures available ==> key == seq[0].key && value == seq[0].value
+//@   ensures lruInv(c, seq, idx)
+
+//@ func (*cache.LRUCache).RemoveOldest
+//@   property C07
+//@   ghost-param seq map[int]*node
+//@   ghost-param idx map[*node]int
+//@   ghost nseq map[int]*node
+//@   ghost nidx map[*node]int
+//@   requires c.size >= 1 && c.evictList != nil && c.items != nil && listInv(c.evictList, seq, idx) && (forall k K :: { c.items[k] } k in c.items ==> member(c.evictList, seq, idx, c.items[k]) && c.items[k].key == k) && (forall i int :: { seq[i] } 0 <= i && i < c.evictList.len ==> seq[i].key in c.items && c.items[seq[i].key] == seq[i])
+//@   modifies c.evictList.len, map(c.items), all cache.node.next, all cache.node.prev
+//@   ensures removed <==> old(c.evictList.len) > 0
+//@   ensures removed ==> key == old(seq[c.evictList.len - 1].key) && value == old(seq[c.evictList.len - 1].value) && !(key in c.items) && c.evictList.len == old(c.evictList.len) - 1 && removedAt(old(c.evictList.len), seq, nseq, old(c.evictList.len) - 1)
+//@   ensures removed ==> listInv(c.evictList, nseq, nidx) && (forall k K :: { c.items[k] } k in c.items ==> member(c.evictList, nseq, nidx, c.items[k]) && c.items[k].key == k) && (forall i int :: { nseq[i] } 0 <= i && i < c.evictList.len ==> nseq[i].key in c.items && c.items[nseq[i].key] == nseq[i])
+//@   ensures !removed ==> c.evictList.len == 0 && listInv(c.evictList, seq, idx)
+//@   ensures forall k K :: { c.items[k] } k != key ==> ((k in c.items) <==> old(k in c.items)) && c.items[k] == old(c.items[k])
+//@   call removeLast#1 ghost seq = seq; idx = idx
+//@   call remove#1 ghost seq = seq; idx = idx
+
+//@ func (*cache.LRUCache).Remove
+//@   property C07
+//@   ghost-param seq map[int]*node
+//@   ghost-param idx map[*node]int
+//@   ghost nseq map[int]*node
+//@   ghost nidx map[*node]int
+//@   requires lruInv(c, seq, idx)
+//@   modifies c.evictList.len, map(c.items), all cache.node.next, all cache.node.prev
+//@   ensures removed <==> old(key in c.items)
+//@   ensures removed ==> value == old(c.items[key].value) && !(key in c.items) && lruInv(c, nseq, nidx) && c.evictList.len == old(c.evictList.len) - 1 && removedAt(old(c.evictList.len), seq, nseq, idx[old(c.items[key])])
+//@   ensures !removed ==> value == zero && lruInv(c, seq, idx) && c.evictList.len == old(c.evictList.len)
+//@   ensures forall k K :: { c.items[k] } k != key ==> ((k in c.items) <==> old(k in c.items)) && c.items[k] == old(c.items[k])
+//@   call remove#1 ghost seq = seq; idx = idx
+
+//@ func (*cache.LRUCache).RemoveYoungest
+//@   property C07
+//@   ghost-param seq map[int]*node
+//@   ghost-param idx map[*node]int
+//@   ghost nseq map[int]*node
+//@   ghost nidx map[*node]int
+//@   requires lruInv(c, seq, idx)
+//@   modifies c.evictList.len, map(c.items), all cache.node.next, all cache.node.prev
+//@   ensures removed <==> old(c.evictList.len) > 0
+//@   ensures removed ==> key == old(seq[0].key) && value == old(seq[0].value) && !(key in c.items) && lruInv(c, nseq, nidx) && c.evictList.len == old(c.evictList.len) - 1 && removedAt(old(c.evictList.len), seq, nseq, 0)
+//@   ensures !removed ==> lruInv(c, seq, idx) && c.evictList.len == 0
+//@   ensures forall k K :: { c.items[k] } k != key ==> ((k in c.items) <==> old(k in c.items)) && c.items[k] == old(c.items[k])
+//@   call removeLast#1 ghost seq = seq; idx = idx
+//@   call remove#1 ghost seq = seq; idx = idx
+
+//@ func (*cache.LRUCache).Flush
+//@   property C07
+//@   ghost nseq map[int]*node
+//@   ghost nidx map[*node]int
+//@   requires c.size >= 1
+//@   modifies c.items, c.evictList
+//@   ensures lruInv(c, nseq, nidx) && c.evictList.len == 0 && forall k K :: !(k in c.items)
+
+//@ func (*cache.LRUCache).Add
+//@   property C07
+//@   ghost-param seq map[int]*node
+//@   ghost-param idx map[*node]int
+//@   ghost nseq map[int]*node
+//@   ghost nidx map[*node]int
+//@   requires lruInv(c, seq, idx)
+//@   modifies c.evictList.len, map(c.items), all cache.node.next, all cache.node.prev, all cache.node.value
+//@   ensures lruInv(c, nseq, nidx) && key in c.items && c.items[key].value == value && nseq[0] == c.items[key]
+//@   ensures old(key in c.items) ==> !removed && c.evictList.len == old(c.evictList.len) && movedFront(c.evictList.len, seq, nseq, idx[old(c.items[key])]) && (forall k K :: { c.items[k] } ((k in c.items) <==> old(k in c.items)) && c.items[k] == old(c.items[k]))
+//@   ensures !old(key in c.items) && old(c.evictList.len) < c.size ==> !removed && c.evictList.len == old(c.evictList.len) + 1 && pushedFront(old(c.evictList.len), seq, nseq, c.items[key]) && (forall k K :: { c.items[k] } k != key ==> ((k in c.items) <==> old(k in c.items)) && c.items[k] == old(c.items[k]))
+//@   ensures !old(key in c.items) && old(c.evictList.len) == c.size ==> removed && oldestKey == old(seq[c.evictList.len - 1].key) && oldestValue == old(seq[c.evictList.len - 1].value) && !(oldestKey in c.items) && c.evictList.len == c.size && (forall i int :: { nseq[i] } 1 <= i && i < c.size ==> nseq[i] == seq[i - 1]) && (forall k K :: { c.items[k] } k != key && k != oldestKey ==> ((k in c.items) <==> old(k in c.items)) && c.items[k] == old(c.items[k]))
+//@   ensures forall r *node :: { r.value } r != c.items[key] ==> r.value == old(r.value)
+//@   call moveFront#1 ghost seq = seq; idx = idx
+//@   call addFront#1 ghost seq = seq; idx = idx
+//@   call RemoveOldest#1 ghost seq = nseq; idx = nidx
